@@ -70,6 +70,10 @@ EXTRA = {
     # code listing holding a '$' (shell code): removed as a whole, nothing of it may show and
     # the text behind it is untouched -- open known finding KF-lstlisting (see DESIGN section 7)
     'lstlisting_dollar': ['cat', A, '\n', ['removed_env', 'lstlisting', '\necho $HOME\n'], '\n', B],
+    # constructs standing at the very beginning of the text (token number 0)
+    'skip_region_first': ['cat', ['skip_region', 'hidden words $'], A, ' ', B],
+    'comment_first': ['cat', ['comment', ' hidden'], A, ' ', B],
+    'label_first': ['cat', ['label', 'k'], A, ' ', B],
     'tabular_pos': ['cat', A, ' ', ['G', '\\begin{tabular}[t]{ll}', None], T('a'), ' ', ['special', '&'],
                     ' ', B, ['G', '\\end{tabular}', None], ' ', A],
 }
